@@ -117,13 +117,17 @@ def calculateSunVizFraction(tgt_eci_position: ndarray, sun_eci_position: ndarray
     if c < abs(a + b):
         # Montenbruck Eq. 3.93
         x = (c**2 + a**2 - b**2) / (2 * c)
-        y = sqrt(a**2 - x**2)
+        y = sqrt(max(a**2 - x**2, 0.0))
 
         # Montenbruck Eqs. 3.92 & 3.94
-        A = a**2 * arccos(x / a) + b**2 * arccos((c - x) / b) - c * y  # noqa: N806
+        cos_sun = min(1.0, max(-1.0, x / a))
+        cos_earth = min(1.0, max(-1.0, (c - x) / b))
+        A = a**2 * arccos(cos_sun) + b**2 * arccos(cos_earth) - c * y  # noqa: N806
 
-        # Partial occultation
-        return 1.0 - A / (PI * a**2)
+        # Partial occultation. Near the edges of the penumbra the arccos terms lose precision
+        # (and `a**2 - x**2` above may round below zero), so keep the fraction inside its
+        # documented range.
+        return min(1.0, max(0.0, 1.0 - A / (PI * a**2)))
 
     return 1.0  # No occultation by the Earth
 
